@@ -225,7 +225,7 @@ def st_index_biased_ops(inv):
 def shard_programs(ctx, fixture, n, max_ops, prop=P, index_bias=False, async_mgr=False):
     from hypothesis import strategies as st
     inv = MP.inventory(fixture)
-    prog = MP.st_program(inv, 1, max_ops)
+    prog = MP.st_program(inv, 1, max_ops, ctx_delete=False)
     if index_bias:
         biased = st_index_biased_ops(inv)
         if biased is not None:
